@@ -44,6 +44,18 @@ func (tEcho) VarlinkDispatch(ctx context.Context, c varlink.Call, m string) erro
 	switch m {
 	case "Echo":
 		return c.Reply(ctx, &raw)
+	case "Hold": // (C17 leg) stays silent, and reads nothing, until the file "file" exists
+		var p struct {
+			File string `json:"file"`
+		}
+		json.Unmarshal(raw, &p)
+		for i := 0; i < 30000; i++ {
+			if _, err := os.Stat(p.File); err == nil {
+				break
+			}
+			time.Sleep(time.Millisecond)
+		}
+		return c.Reply(ctx, &raw)
 	case "More":
 		var p struct {
 			N int `json:"n"`
